@@ -121,7 +121,7 @@ PROPS = {
     'C17': dict(
         v=['C17_gossip'],
         k=[('tensor_chain', ['c17_sup_irreflexive', 'c17_sup_asymmetric', 'c17_sup_transitive', 'c17_sup_total_on_keys'])],
-        b=['c17_merge'],
+        b=['c17_merge', 'c17_manager'],
         pairs={'C17_gossip': ['bounded:c17_merge']},
         level='other',
         technique='Verus: extracted merge/tick/sync_time proved equal to a fold spec + convergence theorem; Kani: supersedes is a strict order',
